@@ -190,7 +190,8 @@ def check(run):
     from .c06 import depends_on
     depends_on(run, "C10")
     depends_on(run, "C02", {"FORMULA"})         # PFI tracks the centred contribution mean(losses) - loss, not two raw losses
-    depends_on(run, "C12", {"TYPESTATE", "COPY"})       # one tracker per key
+    depends_on(run, "C12", {"TYPESTATE", "COPY"})
+    depends_on(run, "C03", {"KEY"})             # the credits are tracked as differenced, not rescaled afterwards       # one tracker per key
     run.check(ok, "CHAIN", "raw-losses", sg.where(sg.L.line), sg.fq, f"chain losses: {why or 'as returned'}",
               f"the chain must difference the loss values as returned by the loss function: {why} (adding an offset before "
               f"differencing rounds small losses to the float grid of the offset)", "chain losses are the loss results themselves")
